@@ -5,6 +5,7 @@ PROP = {
     "level": "proof",
     "stateful": False,
     "timeout": 1500,
+    "timeout_thorough": 3000,
     "level_text": "Proof at the granularity of shared-string-table operations: savers are programs of atomic steps (registrations, final dump) over tables private "
                   "to each save (the code after the per-save-table fix); for ANY number of savers, ANY string lists and ANY schedule in which a saver finishes, "
                   "its output equals its solo output (C16_any_schedule, by showing that other savers' steps do not touch it), decodes to its own strings "
